@@ -791,3 +791,40 @@ Lemma fir_plan_stage_lp Fs ub : 0 < Fs -> (Qltb (ub / (Fs / 2)) 1 = true <-> ub 
 Proof. intros HF. rewrite Qltb_lt. apply frac_lt1. apply half_pos; exact HF. Qed.
 Lemma fir_plan_stage_hp Fs lb : 0 < Fs -> (Qltb 0 (lb / (Fs / 2)) = true <-> 0 < lb).
 Proof. intros HF. rewrite Qltb_lt. apply frac_pos. apply half_pos; exact HF. Qed.
+
+(* ------------------------------------------------------------------ tie of the K-evaluated function, examples *)
+(* the function evaluated in the correspondence (resym after the mask) is the mask itself on the
+   spectrum of real data *)
+Lemma fourier_spec_is_masked Fs n lb ub X k : csym n X -> (k < n)%nat ->
+  fourier_spec Fs n lb ub X k =c= masked n (fmask Fs n lb ub) X k.
+Proof.
+  intros H Hk. unfold fourier_spec. apply resym_csym; [exact Hk|].
+  unfold fmask. apply masked_csym. exact H.
+Qed.
+
+Lemma lin_example : lin 5 (fun x t => 2 * x t + x (t - 1)%nat).
+Proof.
+  split.
+  - intros a b x y t _. ring.
+  - intros x y H t Ht. rewrite (H t Ht), (H (t - 1)%nat) by lia. reflexivity.
+Qed.
+
+Lemma band_hyps_example :
+  Nat.even 8 = true /\ (0 < 2 < 8)%nat /\ (0 < 1 < 8)%nat /\
+  Qle_bool (3 # 4) (tfreq 4 8 2) && Qle_bool (tfreq 4 8 2) (3 # 2) = true /\
+  Qle_bool (3 # 4) (tfreq 4 8 1) && Qle_bool (tfreq 4 8 1) (3 # 2) = false /\
+  zeroed 8 (idx0 4 8 (3 # 4) (3 # 2)) 2 = false /\ zeroed 8 (idx0 4 8 (3 # 4) (3 # 2)) 1 = true /\
+  zeroed 8 (idx0 4 8 (3 # 4) (3 # 2)) 7 = true /\ zeroed 8 (idx0 4 8 (3 # 4) (3 # 2)) 6 = false.
+Proof. split; [reflexivity|]. split; [lia|]. split; [lia|]. vm_compute. repeat split; reflexivity. Qed.
+
+Lemma axis_example :
+  out_axis (MFir 2) (mk_tsin [2; 44]%Z 2%float 500000000000%Z 5000000000%Z Ums)
+  = Some (mk_axis [2; 44]%Z 500000000000%Z 5000000000%Z Ums) /\
+  rate_consistent (mk_tsin [2; 44]%Z 2%float 500000000000%Z 5000000000%Z Ums).
+Proof. vm_compute. split; reflexivity. Qed.
+
+Lemma fir_plan_example :
+  fir_plan 2 (1 # 5) (Some (3 # 5)) 8 44 = Plan 9 [LP ((3 # 5) / (2 / 2)); HP ((1 # 5) / (2 / 2))] /\
+  fir_plan 2 0 None 8 44 = Plan 9 [] /\ fir_plan 2 0 (Some (1 # 5)) 40 12 = PlanErr /\
+  fir_plan 2 0 (Some (6 # 5)) 8 44 = PlanErr.
+Proof. vm_compute. repeat split; reflexivity. Qed.
